@@ -4,7 +4,8 @@ sufficiency per input (greedy by weight under GF(2) independence reaches the dim
 from gcommon import *
 
 THEOREMS = ["Parmcb.C14." + t for t in ["c14_cand_sound", "c14_parity_label", "c14_iso_subset", "c14_fvs_subset", "c14_transfer",
-            "c14_phase_sufficient", "c14_sufficient", "c14_sufficient_horton", "c14_sufficient_fvs"]]
+            "c14_phase_sufficient", "c14_sufficient", "c14_sufficient_horton", "c14_sufficient_fvs",
+            "c14_phase_sufficient_iso", "c14_sufficient_iso"]]
 
 def tree_paths(n, WE, src_list, blocks_trees):
     return None
@@ -57,7 +58,7 @@ def oracle(case, blocks3, trees_block):
 
 def run(tier, replay=None):
     res = Result("C14", tier, "proof")
-    res.assumptions = ["c14_sufficient_iso_partial: sufficiency is proved for the Horton and FVS collections (c14_sufficient_horton / _fvs, for any choice of shortest paths); for the ISOMETRIC sub-collection it is NOT proved (it needs the mutual consistency of the lexicographic paths) and is validated per input by greedy selection against an independent optimum; c14_transfer proves that this is all that is missing",
+    res.assumptions = ["sufficiency is proved for all three collections (c14_sufficient_horton / _fvs / _iso); the model replaces boost::connected_components by a label propagation that is proved to compute connected components (isoComponents_spec) and whose result is compared with the C++ collection literally on every run; greedy selection over the dumped collections against an independent optimum is kept as a per-run cross-check",
                        "candidate soundness is proved for trees passing the C12 certificate, which is evaluated per run"]
     lean_ok = lean_gate(res, "Parmcb.Props.C14b", THEOREMS)
     binary, log = compile_harness("h_graph.cpp", sanitize=(tier == "thorough"))
